@@ -1,6 +1,7 @@
 //@ inject src/bits/bit_vec.rs
 //@ fn bits::bit_vec::AtomicBitVec::{get, set, swap, get_unchecked, set_unchecked, swap_unchecked}
 //@ harness atomic_bv_set_get props=C06,C14,C12 timeout=900
+//@ harness atomic_bv_oob props=C06,C12 timeout=900
 //@ assume sequential semantics of the atomic operations only (one thread): interleavings are C13, not applicable; backend [AtomicUsize; 2], every length 0..=128, arbitrary storage beyond the length
 #[cfg(kani)]
 mod verif_kani_atomic_bv {
@@ -25,5 +26,18 @@ mod verif_kani_atomic_bv {
         kani::assume(p < 128 && p != i);
         assert!((after[p / 64].load(Ordering::Relaxed) >> (p % 64)) & 1 == (before[p / 64] >> (p % 64)) & 1);
         kani::cover!(i == 127 && v, "vacuity probe: last bit reachable");
+    }
+
+    /// "Out-of-range indices are rejected by a panic": for every length 0..=128 over two words and every index at or beyond the
+    /// length (inside the backend or not) get / set / swap panic; `must_not_reach` turns a normal return into a non-panic failure
+    #[kani::proof]
+    #[kani::should_panic]
+    fn atomic_bv_oob() {
+        let w0: usize = kani::any(); let w1: usize = kani::any();
+        let len: usize = kani::any(); let i: usize = kani::any(); let v: bool = kani::any(); let op: u8 = kani::any();
+        kani::assume(len <= 128 && i >= len);
+        let a = unsafe { AtomicBitVec::<[AtomicUsize; 2]>::from_raw_parts([AtomicUsize::new(w0), AtomicUsize::new(w1)], len) };
+        match op { 0 => { let _ = a.get(i, Ordering::Relaxed); } 1 => { a.set(i, v, Ordering::Relaxed); } _ => { let _ = a.swap(i, v, Ordering::Relaxed); } }
+        let p: *const u8 = core::ptr::null(); let _x = unsafe { *p };
     }
 }
